@@ -9,6 +9,7 @@ import Fx.Lemmas.LogBound
 import Fx.Lemmas.Total
 import Fx.Lemmas.EmitPlans
 import Fx.Lemmas.Depth
+import Fx.Lemmas.Linear
 import Fx.Lemmas.Fuel
 namespace Fx.C09
 open Fx
@@ -113,6 +114,23 @@ example :
                        ⟨"s", true, .struct [.plain "xs" (.varArr "in" true none), .optional "opt" "in",
                                             .plain "arr" (.fixedArr 2 (.tryFrom "in"))]⟩], []⟩
     p.acyclic = true ∧ p.depth "in" = 5 ∧ p.depth "s" = 14 := by decide
+
+/-- **C09, the general case in closed form: never worse than quadratic.**  For every specification with finite types (exact size
+    impls, array elements that consume input) and EVERY buffer of `n` bytes, the decoder answers, and all the memory it requests —
+    on success or on failure — adds up to at most `(n/4 + 1) · L · n`, where `L = p.maxLocal 0` is a constant of the specification
+    (`C04_depth_linear_in_input` gives the budget, `C09_total_bounded` the charge per level).  For specifications without
+    recursive types the bound is linear (`C09_total_acyclic`); finding K11 shows the quadratic term is reached by types recursive
+    through an unbounded counted array. -/
+theorem C09_total_at_most_quadratic (a : Ast) (p : Plans) (hp : p.SizeExact' = true) (hs : p.elemsSure = true) (hfin : p.finite = true)
+    (name : String) (c : Cur) :
+    ∃ r, r ≠ .outOfFuel ∧ (∀ f, (c.remaining / 4 + 1) * p.maxLocal 0 ≤ f → evalImpl a p f name c = r) ∧
+      ∀ l', r.log? = some l' → ∃ new, l' = c.log ++ new ∧ wt new ≤ (c.remaining / 4 + 1) * p.maxLocal 0 * c.remaining := by
+  have hb := budget_suffices a p hfin (c.remaining / 4) name c (by omega)
+  have hlin := budget_linear p (c.remaining / 4)
+  have hno := hb _ hlin
+  refine ⟨evalImpl a p ((c.remaining / 4 + 1) * p.maxLocal 0) name c, hno,
+    fun f hf => evalImpl_fuel_mono a p name c _ f hf hno, fun l' hl => ?_⟩
+  exact C09_total_bounded a p hp hs _ name c l' hl
 
 /-- K11 in the model (a test, not the unbounded claim): the plans of `struct t { t kids<>; }` on 16, 32 and 64 bytes of `ff`
     request 24, 112 and 480 units — the total grows quadratically (2k(k-1) for 4k bytes) while every single request stays
